@@ -11,7 +11,7 @@ CLAIMED = {
  "C01": ("For every variant (ICMP/UDP v4+v6, TCP SYN default/Paris, SACK strict/relaxed) the real SendProbe calls followed by one real ReceiveProbe over an arbitrary packet of the listed lengths: every accepted hop is proved to be backed by a genuine reply to a probe that was sent (oracle written against the bytes that really went out), for all configurations inside the window bound. Bounded model checking: holds for every value inside the bounds, says nothing outside.", "5 C01"),
  "C02": ("Every reply form of the catalogue, with all free fields symbolic, is proved to be accepted as the hop of the probe it answers by the real matchers, for every variant, every TTL position and every sequence/ID base inside the window bound.", "5 C02"),
  "C04": ("Same exploration as C01; the destination flag of every accepted hop is proved equivalent to the protocol's proof-of-arrival form coming from the target address.", "5 C04"),
- "C09": ("Same exploration as C01 over arbitrary bytes: every outcome of ReceiveProbe is proved to be a hop, a retryable error, or the one allowed SACK abort; no Go panic is reachable inside the bounds.", "5 C09"),
+ "C09": ("Same exploration as C01 over arbitrary bytes: every outcome of ReceiveProbe is proved to be a hop, a retryable error, or the one allowed SACK abort; no Go panic is reachable inside the bounds. A rejected packet delivered before a genuine reply does not change that reply's recognition. Frame level: arbitrary Ethernet frames of every captured length through the real afPacketSource.Read / stripEthernetHeader / ReadAndParse behind the real cBPF program of each filter end in a parsed packet or a retryable error.", "5 C09"),
 }
 CLAIMED.update({
  "C03": ("Parts (a) and (b): the real TracerouteParallel/TracerouteSerial over a model driver for every schedule and bounded reply sequence produce a list of the stated shape; and the real clipResults and ToHops over an arbitrary slot table satisfying the engines' representation invariant, every occupancy/destination pattern for MaxTTL <= 5/8 and windows at 4, 128, 255: list shape (consecutive TTLs, ends at the lowest destination TTL, never empty, only the last entry is the destination) is proved. ", "5 C03"),
@@ -21,11 +21,11 @@ CLAIMED.update({
  "C16": ("The real Results.Normalize on symbolic documents: reachable iff address, hop-count statistics ordered and within run lengths, e2e statistics (sent/received/loss exact; min <= avg <= max; 0 <= jitter <= max-min) decided in IEEE-754 semantics by cvc5 for n=2 (quick) / 3 (thorough) samples; identifier path uuid->base64 injective (per 3-byte group). JSON round trip is outside (reflection).", "5 C16"),
  "C17": ("The real Results.RemovePrivateHops (and net.IP.IsPrivate/To4) on symbolic documents against an independent RFC 1918 / RFC 4193 predicate over 4-byte, 16-byte and IPv4-mapped addresses: private hops keep only TTL and position, other hops are the same objects untouched, counts unchanged; the HTTP flag parses as a boolean; the real RunTraceroute over model runs and a model resolver redacts after enrichment and normalisation (no name, RTT or flag of a private hop survives).", "5 C17"),
  "C19": ("The real runTracerouteOnce with MinTTL/MaxTTL as unconstrained 64-bit symbols for every protocol/method/target/port combination listed: either an error, or the runner (observed at its entry through a seam) received exactly the requested TTL bounds, address, port and kind, with 1 <= min <= max <= 255; HTTP query values pass through unchanged; no panic in driver construction and first/last probe at the extremes (MaxTTL 1 and 255).", "5 C19"),
- "C20": ("Parts (a),(d): the real performTCPFallback over recording closures and symbolic error chains (depth <= 3, %w / Join / custom Unwrap / %v): sack never falls back, prefer_sack falls back exactly when a NotSupportedError is reachable in the chain and otherwise reports the SACK error wrapped, syn never runs SACK; e2e probes use SYN on a single TTL. Where NotSupportedError originates (entry-point level) is not covered yet.", "5 C20"),
+ "C20": ("Parts (a),(d): the real performTCPFallback over recording closures and symbolic error chains (depth <= 3, %w / Join / custom Unwrap / %v): sack never falls back, prefer_sack falls back exactly when a NotSupportedError is reachable in the chain and otherwise reports the SACK error wrapped, syn never runs SACK; e2e probes use SYN on a single TTL. Where NotSupportedError originates: the real sack matcher turns an ACK on the probed connection without SACK blocks into NotSupportedError and nothing else; the real ReadHandshake classifies a SYN-ACK without SACK-permitted as NotSupportedError (reachable through errors.As from the returned error) and silence/noise as a plain error; the entry points classify dial failure likewise (C10 jobs).", "5 C20"),
 })
 CLAIMED.update({
- "C07": ("The real TracerouteParallel (real errgroup, context plumbing on a context model) over a model driver, explored for every interleaving of its goroutines at scheduling points and every bounded reply sequence: the returned list is proved equal to the reference fold (first reply per TTL, destination overrides, clipped at the lowest destination) of the replies the receiver accepted.", "5 C07"),
- "C08": ("Parts (a),(b): same exploration on a virtual discrete-event clock: the parallel engine returns within MaxTimeout + one poll and never starts a receive at or after its deadline; the serial engine within the per-TTL sum; a cancellation at any instant is reported with ctx.Err() within one poll + one send delay. Deadlines handed to DNS/HTTP/dial are not covered yet.", "5 C08"),
+ "C07": ("The real TracerouteParallel (real errgroup, context plumbing on a context model) over a model driver, explored for every interleaving of its goroutines at scheduling points and every bounded reply sequence: the returned list is proved equal to the reference fold (first reply per TTL, destination overrides, clipped at the lowest destination) of the replies the receiver accepted, and the receiver keeps polling until the deadline as long as a later reply could still change the result.", "5 C07"),
+ "C08": ("Parts (a),(b): same exploration on a virtual discrete-event clock: the parallel engine returns within (listening timeout + one send delay per probe, computed from the parameters) + one poll and never starts a receive at or after its deadline; the serial engine within the per-TTL sum; a cancellation at any instant is reported with ctx.Err() within one poll + one send delay. ReadHandshake under a flood of unrelated packets returns within its 500 ms window. DNS/HTTP deadlines are checked in C18's jobs; the dial timeout is not covered.", "5 C08"),
 })
 CLAIMED.update({
  "C15": ("The real runTracerouteMulti with the run function (package variable) replaced by a model that succeeds or fails per call, explored over completion orders of the concurrent runs/probes (bounded preemptions): success exactly when everything succeeded, with exactly the requested numbers of runs and RTT samples, none lost or duplicated (multiset equality), zeros for unanswered probes; on any failure no result and an error for which errors.Is holds for every individual failure; a failing public-IP fetcher changes neither case; no goroutine outlives the call.", "5 C15"),
@@ -35,7 +35,7 @@ CLAIMED.update({
  "C12": ("The filter programs exactly as the real getClassicBPFFilter returns them (generated TCP-tuple program with symbolic tuple; static SYN-ACK, ICMP, drop-all programs) are run by the real x/net/bpf VM on a symbolic 110-byte frame with symbolic captured length and proved equivalent to the reference predicate taken from the property text; and for each protocol the filter its entry point installs is proved to accept every frame whose payload the real matcher turns into a hop.", "5 C12"),
 })
 CLAIMED.update({
- "C10": ("The four real protocol entry points executed whole over model handles (seams at the socket constructors), real drivers and engines, with one symbolic fault per run (which call fails, which k) and optionally failing Close calls, for bounded preemptions: an injected failure always yields an error wrapping the injected cause and no result; without a fault a result whose reported endpoints are those on the wire; on every path each handle (source, sink, reserved listener, UDP and TCP sockets) is closed exactly once and never used afterwards, and no goroutine outlives the call; only dial failure and a SYN-ACK without SACK-permitted are classified NotSupportedError.", "5 C10"),
+ "C10": ("The four real protocol entry points executed whole over model handles (seams at the socket constructors), real drivers and engines, with one symbolic fault per run (which call fails, which k) and optionally failing Close calls, for bounded preemptions: an injected failure always yields an error wrapping the injected cause and no result; without a fault a result whose reported endpoints are those on the wire; on every path each handle (source, sink, reserved listener, UDP and TCP sockets) is closed exactly once and never used afterwards, and no goroutine outlives the call; only dial failure and a SYN-ACK without SACK-permitted are classified NotSupportedError. The real SetBPFAndDrain over a model RawConn and model socket calls: drop-all, drain to EAGAIN, then the requested program; every injected errno is wrapped.", "5 C10"),
 })
 CLAIMED.update({
  "C14": ("A vector-clock happens-before monitor inside the symbolic executor checks every memory access of the model goroutines while the real TracerouteParallel runs over each real parallel-capable driver with replies queued at arbitrary points, while runTracerouteMulti runs concurrent runs/probes, and during concurrent reverse-DNS lookups and allocator calls, over all schedules within the preemption bound: no two conflicting accesses are unordered.", "5 C14"),
